@@ -55,6 +55,11 @@ def compare(stack, tuples=()):
     if ref['dependency_error']:
         if obs.get('dir_err') != 'DependencyError':
             diffs.append(('dir', obs.get('dir', obs.get('dir_err')), 'DependencyError ' + json.dumps(ref['dependency_error'])))
+        else:
+            # the message names the field and the missing inputs (C18)
+            msg = obs.get('dir_err_msg', '')
+            if not any(repr(f) in msg and all(repr(m) in msg for m in miss) for f, miss in ref['dependency_error']):
+                diffs.append(('dependency-error-text', msg[:300], json.dumps(ref['dependency_error'])))
         return diffs, obs
     if 'dir_err' in obs:
         diffs.append(('dir', obs['dir_err'], ref['dir']))
@@ -155,7 +160,8 @@ def run_shard(args):
     stacks = []
     for i in range(n):
         rng = random.Random(seed * 100003 + i)
-        stacks.append(gen_stack(rng, max_layers=opts.get('max_layers', 6), caches=opts.get('caches', True)))
+        stacks.append(gen_stack(rng, max_layers=opts.get('max_layers', 6), caches=opts.get('caches', True),
+                                p_avail=opts.get('p_avail', 0.85), p_opt=opts.get('p_opt', 0.3)))
     answers = driver.run_lines([model_request(s) for s in stacks])
     stats = {'stacks': 0, 'construct_err': 0, 'dependency_error': 0, 'ok': 0, 'fields_checked': 0, 'layers': {},
              'kinds': {}, 'optional_marks': 0, 'quietly_dropped': 0}
